@@ -765,3 +765,18 @@ def extra_props(ctx, fails, module, theorems, target, trusted):
 def source_tie(ctx, fails):
     """obligation shared by C03 / C06 / C17: SymbolMap_model_is_source for the CURRENT source text"""
     return extra_props(ctx, fails, "TG.Props.SymbolMapSource", SOURCE_THEOREMS, "props/SymbolMapSource.vo", SOURCE_TRUSTED)
+
+
+# ---- the complete analysis in Coq (builder bridge, props/PipelineAll.v): all nine queries from the texts ----------
+PIPELINEALL_THEOREMS = ["PipelineAll_conservative", "PipelineAll_fields", "analyze_all_total",
+                        "PipelineAll_handlers_total_if_closed", "analyze_all_ranges_valid", "PipelineAll_nonvacuous"]
+PIPELINEALL_TRANSLATORS = ["t_tokens", "t_lextables", "t_unicode", "t_grammar", "t_grammarcert", "t_foldkinds", "t_ast", "t_completion"]
+PIPELINEALL_TRUSTED = ("props/PipelineAll.v (builder bridge; coq/model/PipelineAll.v: the COMPLETE analysis, all nine queries computed from the texts): "
+                       "PipelineAll_conservative (every position-reading query on its joined state = the same query on abs (index_ws w), so the "
+                       "Core theorems of this property transfer to the answers of the complete model), analyze_all_total, "
+                       "analyze_all_ranges_valid, PipelineAll_handlers_total_if_closed; its tie to the Rust handlers is builder bridge's checked "
+                       "comparison with idedump (design/notes-bridge.md)")
+
+
+def pipeline_all(ctx, fails):
+    return extra_props(ctx, fails, "TG.Props.PipelineAll", PIPELINEALL_THEOREMS, "props/PipelineAll.vo", PIPELINEALL_TRUSTED)
